@@ -77,6 +77,8 @@ type inst struct {
 	recs map[string]mrec
 	sess [2]msess
 	n    int // steps so far (makes values unique)
+	// probed[s]: the current in-memory incarnation of session s already got its heartbeat
+	probed [2]bool
 }
 
 type nullRPC struct{}
@@ -409,8 +411,28 @@ func (in *inst) oracle(before, after map[string]stored, touched map[string]bool,
 			return viol("read-mismatch:"+what, fmt.Sprintf("after %s Get(%q) = %v, model %+v (session %s)", what, k, g, m, wantSess))
 		}
 	}
-	// 5. heartbeats: accepted exactly for live sessions
+	// 5. the session manager holds exactly the live sessions; heartbeats are accepted exactly
+	// for them. A live session incarnation (created, or re-armed by an election) gets ONE
+	// heartbeat: session.heartbeat blocks while holding the session lock when a previous
+	// heartbeat is still buffered, and the session goroutine takes that lock when it starts
+	// (see NOTES.md, "heartbeat deadlock") - a second one could hang the harness.
+	var wantMem []int64
 	for s := range in.sess {
+		if in.sess[s].state == live {
+			wantMem = append(wantMem, in.sess[s].id)
+		}
+	}
+	sort.Slice(wantMem, func(i, j int) bool { return wantMem[i] < wantMem[j] })
+	if got := server.VerifLiveSessionIds(in.lc); fmt.Sprint(got) != fmt.Sprint(wantMem) {
+		return viol("session-manager-state:"+what, fmt.Sprintf("after %s the session manager holds sessions %v, live sessions are %v", what, got, wantMem))
+	}
+	for s := range in.sess {
+		if in.sess[s].state == live {
+			if in.probed[s] {
+				continue
+			}
+			in.probed[s] = true
+		}
 		err := in.lc.KeepAlive(in.sessionIdFor(s))
 		nKeepAlives.Add(1)
 		if in.sess[s].state == live && err != nil {
@@ -576,6 +598,7 @@ func (in *inst) Step(op int) (bool, *ev.Violation) {
 			return true, viol("reelection-failed", err.Error())
 		}
 		nElections.Add(1)
+		in.probed = [2]bool{}
 		if in.sess[0].state == live || in.sess[1].state == live {
 			nElectionsWithSessions.Add(1)
 		}
